@@ -19,7 +19,10 @@ import (
 	"time"
 
 	"github.com/folbricht/desync"
+	minio "github.com/minio/minio-go/v6"
+	"github.com/minio/minio-go/v6/pkg/credentials"
 
+	"verif/harness/fakes"
 	"verif/harness/trace"
 )
 
@@ -150,10 +153,12 @@ func classGet(c *desync.Chunk, err error, want []byte) string {
 // an empty store that misses everything
 type empty struct{}
 
-func (empty) GetChunk(id desync.ChunkID) (*desync.Chunk, error) { return nil, desync.ChunkMissing{ID: id} }
-func (empty) HasChunk(desync.ChunkID) (bool, error)               { return false, nil }
-func (empty) Close() error                                        { return nil }
-func (empty) String() string                                      { return "empty" }
+func (empty) GetChunk(id desync.ChunkID) (*desync.Chunk, error) {
+	return nil, desync.ChunkMissing{ID: id}
+}
+func (empty) HasChunk(desync.ChunkID) (bool, error) { return false, nil }
+func (empty) Close() error                          { return nil }
+func (empty) String() string                        { return "empty" }
 
 func wrappers(leaf desync.Store, cacheDir string) map[string]desync.Store {
 	os.RemoveAll(cacheDir)
@@ -238,7 +243,55 @@ func main() {
 						backends["protoraw"] = &protoRaw{dir: sdir}
 						backends["protorelabel"] = &protoRaw{dir: sdir, relabel: true}
 					}
+					// S3: the same objects (the damaged one included) in a bucket of the harness's in-memory S3 endpoint, read by the real S3Store
+					fs3 := fakes.NewFakeS3()
+					filepath.Walk(sdir, func(p string, info os.FileInfo, err error) error {
+						if err == nil && info.Mode().IsRegular() {
+							if rel, rerr := filepath.Rel(sdir, p); rerr == nil {
+								b, _ := os.ReadFile(p)
+								fs3.Put("bkt/"+filepath.ToSlash(rel), b)
+							}
+						}
+						return nil
+					})
+					{
+						su, _ := url.Parse("s3+http://" + fs3.Addr + "/bkt")
+						s3opt := opt
+						s3opt.ErrorRetry = 0
+						if s3s, err := desync.NewS3Store(su, credentials.NewStaticV4("", "", ""), "us-east-1", s3opt, minio.BucketLookupPath); err == nil {
+							backends["s3"] = s3s
+						}
+					}
 					for bname, leaf := range backends {
+						// chunks a caller holds stay what was delivered while the store delivers others (buffers are not re-used under a chunk)
+						{
+							scen++
+							var held []*desync.Chunk
+							var which []int
+							res := "ok"
+							for pass := 0; pass < 2 && res == "ok"; pass++ {
+								for i := range w.ids {
+									if i == w.target {
+										continue
+									}
+									c, err := leaf.GetChunk(w.ids[i])
+									if err != nil {
+										res = "error"
+										break
+									}
+									held = append(held, c)
+									which = append(which, i)
+								}
+							}
+							for k, c := range held {
+								if d, err := c.Data(); res == "ok" && (err != nil || !bytes.Equal(d, w.data[which[k]])) {
+									res = "okbad"
+								}
+							}
+							tw.Emit(trace.M("ev", "leaf", "scen", scen, "backend", bname, "compressed", comp, "class", "none", "verified", verify,
+								"wrapper", "held while others are fetched", "res", res, "res2", res, "preread", preread))
+							n++
+						}
 						verified := verify || bname == "proto" || bname == "protoraw" || bname == "protorelabel"
 						for wname, s := range wrappers(leaf, filepath.Join(*dir, "cache")) {
 							scen++
@@ -261,6 +314,7 @@ func main() {
 						consumers(tw, scen, w, local, class, *dir)
 					}
 					srv.Close()
+					fs3.Close()
 				}
 			}
 		}
@@ -365,8 +419,8 @@ func (p *protoStore) GetChunk(id desync.ChunkID) (*desync.Chunk, error) {
 	return c, err
 }
 func (p *protoStore) HasChunk(id desync.ChunkID) (bool, error) { return true, nil }
-func (p *protoStore) Close() error                               { return nil }
-func (p *protoStore) String() string                             { return "proto" }
+func (p *protoStore) Close() error                             { return nil }
+func (p *protoStore) String() string                           { return "proto" }
 
 // a raw casync peer that sends whatever bytes are stored under the name as the CHUNK payload
 // relabel: the peer labels its reply with the ID the object's content really has (a peer that is out of step, or hostile):
@@ -413,5 +467,5 @@ func (p *protoRaw) GetChunk(id desync.ChunkID) (*desync.Chunk, error) {
 	return c, err
 }
 func (p *protoRaw) HasChunk(id desync.ChunkID) (bool, error) { return true, nil }
-func (p *protoRaw) Close() error                               { return nil }
-func (p *protoRaw) String() string                             { return "protoraw" }
+func (p *protoRaw) Close() error                             { return nil }
+func (p *protoRaw) String() string                           { return "protoraw" }
